@@ -70,6 +70,8 @@ def gen_calls(rng, n):
                 labels[lab] = repr("stale")
             call["post"] = [[[lab], 1], [[lab], 0]]
             kw.pop("initial_state", None)
+        if rng.random() < 0.3:
+            call["init_list"] = True             # an initial state over the labels 0..n-1 handed over as a list
         if rng.random() < 0.2:
             call["positional"] = True
         if rng.random() < 0.2:
